@@ -7,6 +7,7 @@ import (
 	"strings"
 
 	"github.com/mimecast/dtail/verifharness/internal/vlib"
+	"golang.org/x/crypto/ssh/knownhosts"
 )
 
 // fleet: several dtail servers ("hosts") on loopback plus a client identity.
@@ -53,6 +54,13 @@ func startFleet(r *vlib.Run, name string, n int, serverCfg map[string]interface{
 		}
 		f.Servers = append(f.Servers, s)
 	}
+	// The servers' host key is known to the client: no prompt, and concurrent
+	// clients sharing this HOME never rewrite known_hosts.
+	var kh strings.Builder
+	for _, s := range f.Servers {
+		kh.WriteString(knownhosts.Line([]string{s.Addr()}, s.Spec.HostKey.Signer.PublicKey()) + "\n")
+	}
+	os.WriteFile(filepath.Join(f.Home, ".ssh", "known_hosts"), []byte(kh.String()), 0600)
 	return f, nil
 }
 
@@ -67,7 +75,7 @@ func (f *fleet) ServersArg() string {
 
 // ClientArgs are the common client flags for SSH operation.
 func (f *fleet) ClientArgs() []string {
-	return []string{"--cfg", "none", "--trustAllHosts", "--key", f.KeyFile, "--user", f.User, "--servers", f.ServersArg()}
+	return []string{"--cfg", "none", "--key", f.KeyFile, "--user", f.User, "--servers", f.ServersArg()}
 }
 
 // ClientEnv is the environment for clients.
